@@ -16,6 +16,8 @@ CfgAll == {Cfg("u1", "v1", "none", FALSE), Cfg("u1", "v1beta1", "b1", FALSE), Cf
 CfgTwo == {Cfg("u1", "v1", "none", FALSE), Cfg("u2", "v1", "b1", FALSE), Cfg("sel", "v1beta1", "none", FALSE),
            Cfg("selctl", "v1", "b1", TRUE)}
 CfgSel == {Cfg("u1", "v1", "none", FALSE), Cfg("sel", "v1", "none", FALSE), Cfg("u1", "v1beta1", "b1", FALSE)}
+\* composed Usages by a using resource (the wait for the using resource, C08 rider)
+CfgComp == {Cfg("u1", "v1", "b1", TRUE), Cfg("selctl", "v1beta1", "sel", TRUE), Cfg("u1", "v1", "b1", FALSE)}
 PolAll == {"none", "Background", "Foreground", "Orphan"}
 Pol2 == {"none", "Foreground"}
 Pol1 == {"none"}
